@@ -37,7 +37,7 @@ class Path:
         return p
 
 
-def paths(flow, start=None, stop_ids=None, follow_assert_fail=False, max_paths=MAX_PATHS):
+def paths(flow, start=None, stop_ids=None, follow_assert_fail=False, max_paths=MAX_PATHS, stop_at_loops=False):
     """All non-exceptional paths from ``start`` (default: entry) to an exit / ``stop_ids`` of a loop-free region."""
     cfg = flow.cfg
     start = start or cfg.entry
@@ -110,7 +110,11 @@ def paths(flow, start=None, stop_ids=None, follow_assert_fail=False, max_paths=M
                 rec(tgt, q, onpath)
             return
         if node.kind == "next":
-            raise AnalysisError("region of %s contains a loop at line %s" % (flow.fi.qual, node.lineno))
+            if node is start or not stop_at_loops:
+                raise AnalysisError("region of %s contains a loop at line %s" % (flow.fi.qual, node.lineno))
+            p.outcome = ("stop", None, node)
+            out.append(p)
+            return
         if len(succs) == 1:
             rec(succs[0][1], p, onpath)
             return
